@@ -100,6 +100,8 @@ thread_local! {
     static LAST_PANIC: RefCell<Option<PanicInfo>> = RefCell::new(None);
 }
 static HOOK: Once = Once::new();
+/// panics caught so far in this process (a later hang is often the consequence of an earlier panic inside a cached load)
+pub static PANIC_LOG: std::sync::Mutex<Vec<String>> = std::sync::Mutex::new(Vec::new());
 
 fn normalise(msg: &str) -> String {
     // digits are replaced so that the key does not depend on the particular input
@@ -150,6 +152,7 @@ pub fn install_panic_hook() {
                     sym.truncate(p);
                 }
             }
+            if let Ok(mut l) = PANIC_LOG.lock() { if l.len() < 20 { l.push(format!("{}: {}", sym, normalise(&msg))); } }
             LAST_PANIC.with(|c| *c.borrow_mut() = Some(PanicInfo { msg: normalise(&msg), loc, sym }));
         }));
     });
